@@ -94,7 +94,7 @@ def run(tier="quick", seed=0):
     pr = PropertyRun("C12", tier, seed)
     thorough = tier == "thorough"
     pr.model_check("MCSpectrum", workers=4)
-    ev = events(seed, 60 if thorough else 10, 400 if thorough else 60)
+    ev = events(seed, 200 if thorough else 10, 1000 if thorough else 60)
     pr.validate("TraceSpectrum", ev, name="spectra-calls", chunks=12)
     return pr.finish(
         rule="Spectra(config)(N) for N in {0, 1, 7, many}, indices incl. 1, 1 +- ulp, 0, 4 and random, bounds incl. narrow ranges, "
